@@ -1907,7 +1907,8 @@ func (h *fsmHandler) recvMessageloop(ctx context.Context, conn net.Conn, holdtim
 			} else {
 				doCallback := true
 				m := fmsg.MsgData.(*bgp.BGPMessage)
-				switch m.Header.Type {
+				msgType := m.Header.Type
+				switch msgType {
 				case bgp.BGP_MSG_ROUTE_REFRESH:
 					// nothing to do here
 				case bgp.BGP_MSG_UPDATE:
@@ -1979,6 +1980,12 @@ func (h *fsmHandler) recvMessageloop(ctx context.Context, conn net.Conn, holdtim
 					if m.Header.Type == bgp.BGP_MSG_KEEPALIVE {
 						doCallback = false
 					}
+				case bgp.BGP_MSG_OPEN:
+					// RFC 4271 8.2.2 (event 19) / RFC 6608 4: an OPEN in
+					// Established is an FSM error, the session is reset
+					h.fsm.logger.Warn("received an OPEN message in Established state")
+					nonblockSendChannel(h.fsm.notification, bgp.NewBGPNotificationMessage(bgp.BGP_ERROR_FSM_ERROR, bgp.BGP_ERROR_SUB_RECEIVE_UNEXPECTED_MESSAGE_IN_ESTABLISHED_STATE, nil))
+					return
 				case bgp.BGP_MSG_NOTIFICATION:
 					doCallback = false
 					body := m.Body.(*bgp.BGPNotification)
